@@ -37,8 +37,15 @@ func recvErrorsHandled(c *Ctx, r *Report, rule string, pkgs ...string) {
 			n++
 			k++
 			cons := fmt.Sprintf("recv-error#%d", k)
-			// (a) compared with io.EOF
+			// (a) compared with io.EOF (== or errors.Is)
 			eofTest := false
+			eachInstr(f, func(z ssa.Instruction) {
+				if ic, isIC := z.(*ssa.Call); isIC && callID(&ic.Call).Pkg == "errors" && callID(&ic.Call).Name == "Is" && len(ic.Call.Args) == 2 && strip(ic.Call.Args[0]) == e {
+					if g := globalOf(ic.Call.Args[1]); g != nil && g.Name() == "EOF" {
+						eofTest = true
+					}
+				}
+			})
 			for _, ifi := range allIfs(f) {
 				if b, isB := ifi.Cond.(*ssa.BinOp); isB && (b.Op == token.EQL || b.Op == token.NEQ) {
 					for _, pair := range [][2]ssa.Value{{b.X, b.Y}, {b.Y, b.X}} {
@@ -673,7 +680,75 @@ func nodeAnnouncedOnce(c *Ctx, r *Report, rule string) {
 		})
 	}
 	if n == 0 {
-		r.Unk(rule, "cluster.Conn", "add-notification", "-", "no notification call found in the function that inserts into the address book")
+		// the insertion may live in a helper that reports whether the node was new, the announcement in its caller: every way
+		// of reaching the announcement must have the helper's presence test false (path conditions, the helper inlined)
+		for _, g := range prodFuncs(c, "cluster") {
+			var okv *ssa.Extract
+			inserts := false
+			eachInstr(g, func(i ssa.Instruction) {
+				if mu, ok := i.(*ssa.MapUpdate); ok && fieldOfValueDeep(mu.Map) == fAddr {
+					inserts = true
+				}
+				if ex, ok := i.(*ssa.Extract); ok && ex.Index == 1 {
+					if lk, isL := ex.Tuple.(*ssa.Lookup); isL && lk.CommaOk && fieldOfValueDeep(lk.X) == fAddr {
+						okv = ex
+					}
+				}
+			})
+			if !inserts || okv == nil {
+				continue
+			}
+			key := "atom:" + g.String() + ":" + okv.Name()
+			for _, f := range prodFuncs(c, "cluster") {
+				callsG := false
+				eachInstr(f, func(i ssa.Instruction) {
+					if cc := asCall(i); cc != nil && cc.StaticCallee() == g {
+						callsG = true
+					}
+				})
+				if !callsG {
+					continue
+				}
+				eachInstr(f, func(i ssa.Instruction) {
+					cl, ok := i.(*ssa.Call)
+					if !ok || cl.Call.StaticCallee() == nil || cl.Call.StaticCallee() == g || !modLocal(cl.Call.StaticCallee()) {
+						return
+					}
+					sends := false
+					var look func(h *ssa.Function, d int)
+					look = func(h *ssa.Function, d int) {
+						eachInstr(h, func(j ssa.Instruction) {
+							if _, isS := j.(*ssa.Send); isS {
+								sends = true
+							}
+							if c2, isC := j.(*ssa.Call); isC && d < 2 && c2.Call.StaticCallee() != nil && modLocal(c2.Call.StaticCallee()) {
+								look(c2.Call.StaticCallee(), d+1)
+							}
+						})
+					}
+					look(cl.Call.StaticCallee(), 0)
+					if !sends {
+						return
+					}
+					e := &condEngine{budget: 4000, atomKey: func(ssa.Value) (string, bool, bool) { return "", false, false }}
+					paths := e.pathsTo(f, cl.Block(), 0)
+					if e.failed || len(paths) == 0 {
+						return
+					}
+					n++
+					bad := false
+					for _, p := range paths {
+						if present, tested := p.asg[key]; !tested || present {
+							bad = true
+						}
+					}
+					r.Check(!bad, rule, fnName(f), fmt.Sprintf("announce-only-new#%d", n), c.InstrPos(i), "the `node added` notification is sent only for a node that was not listed before: every way of reaching it has the presence test of the inserting helper false")
+				})
+			}
+		}
+	}
+	if n == 0 {
+		r.Unk(rule, "cluster.Conn", "add-notification", "-", "no notification call found in the function that inserts into the address book (or in its callers)")
 	}
 }
 
